@@ -126,6 +126,22 @@ def check_scan_loop(ctx, T):
     body = f.node.body
     # outer scan loop = the top-level `for` that contains a yield
     outer = [s for s in body if isinstance(s, ast.For) and yields_in(s)]
+    if not outer:
+        # scanner form: `while <pos> < len(text): ... yield ...; <pos> = m.end()`.  The position belongs to ONE run of the
+        # generator: get_tokens is lazy and every caller shares the default Lexer instance, so a position kept on `self`
+        # is moved by whichever tokenization runs while this one is suspended at its yield.
+        whiles = [s for s in body if isinstance(s, ast.While) and yields_in(s)]
+        if len(whiles) == 1:
+            shared = sorted({src(n) for n in ast.walk(whiles[0].test) if isinstance(n, ast.Attribute) and is_name(n.value, 'self')})
+            stores = sorted({src(t) for s_ in ast.walk(whiles[0]) if isinstance(s_, (ast.Assign, ast.AugAssign))
+                             for t in (s_.targets if isinstance(s_, ast.Assign) else [s_.target]) if isinstance(t, ast.Attribute) and is_name(t.value, 'self')})
+            if shared or stores:
+                ctx.ob('R1.4', 'a:scan-position-is-local', f'{f.mod.relpath}:{whiles[0].lineno}',
+                       'the scan position is a local of the get_tokens generator', False,
+                       f'the scan loop reads/writes {sorted(set(shared) | set(stores))} on the (process-wide) Lexer instance: two token streams alive at the same time '
+                       '(zip(tokenize(a), tokenize(b)), a parsestream loop that formats each statement, two threads) move each other\'s position, '
+                       'so characters are dropped or repeated and the values no longer concatenate to the input')
+                return
     ctx.need(len(outer) == 1, f'{loc0}: expected exactly one top-level scanning for-loop with yields in Lexer.get_tokens, found {len(outer)}')
     outer = outer[0]
     oloc = f'{f.mod.relpath}:{outer.lineno}'
